@@ -346,13 +346,18 @@ func monC14(rep Rep, v *View) (k, m int, bystander bool) {
 	if !v.Parallel || v.Deleting || v.Paused || !v.Rec.ListedPods {
 		return
 	}
-	if v.Rec.Err != nil || v.Rec.Crashed || v.Rec.Panic != nil {
+	if v.Rec.Crashed || v.Rec.Panic != nil {
 		return
 	}
+	// "absent API errors" is judged by the API calls (and injected cache-lookup failures), not by what the
+	// reconcile returns: a reconcile that gives up although every call succeeded is what the property forbids
 	for _, a := range v.Rec.Actions {
-		if a.Faulted || (a.Err != nil && a.IsWrite()) {
+		if a.Faulted || a.Err != nil {
 			return
 		}
+	}
+	if v.Rec.Err != nil && v.Rec.LookupFailed {
+		return
 	}
 	if len(v.Odd) > 0 {
 		return
